@@ -200,7 +200,12 @@ where
       max_samples_per_instance,
     }) = self.qos.resource_limits
     {
-      Some(max_samples_per_instance)
+      // A negative value is LENGTH_UNLIMITED, i.e. no limit
+      if max_samples_per_instance >= 0 {
+        Some(max_samples_per_instance)
+      } else {
+        None
+      }
     } else {
       None
     };
